@@ -436,6 +436,15 @@ def opProxyUserinfo (j : Json) : R Json := do
 
 
 
+/-- {"files":[[path,size,ignore]...]} -> the queue entries `Index.poolDFile` builds for them -/
+def opPoolDFile (j : Json) : R Json := do
+  let fs ← (← fArr j "files").mapM fun e => do
+    let a ← e.getArr?
+    match a.toList with
+    | [p, sz, ig] => pure ({ path := ← decPath p, size := ← sz.getInt?, ignoreErrors := ← ig.getBool? } : Index.PoolFile)
+    | _ => throw "bad pool file"
+  return Json.arr (fs.map fun pf => encDFile (Index.poolDFile pf)).toArray
+
 /-- L2 whole-run model.
     {"tree":[[path,size,tag]...], "meta":[[path,size,tag]...], "pool":[[path,size,tag,[chunk...]]...], "skip":[path...],
      "crash": k | null}  ->  transfers / removals / final pool listing (after the run, or after crash at k followed by a run) -/
@@ -502,6 +511,7 @@ def dispatch (j : Json) : R Json := do
   | "http_transport" => opHttpTransport j
   | "proxy_userinfo" => opProxyUserinfo j
   | "mirror_run" => opMirrorRun j
+  | "pool_dfile" => opPoolDFile j
   | _ => throw s!"unknown op {op}"
 
 partial def loop (h : IO.FS.Stream) (out : IO.FS.Stream) : IO Unit := do
